@@ -156,7 +156,19 @@ func (c LongCodec) Read(r *avro.ReadBuf, p unsafe.Pointer) error {
 		return err
 	}
 
-	*(*time.Time)(p) = time.Unix(0, l*c.mult).UTC()
+	// The stored value counts units of the logical type. Converting it to
+	// nanoseconds first would overflow for any instant more than 292 years
+	// from 1970 (9999-12-31 is a common sentinel), so convert per unit.
+	var t time.Time
+	switch c.mult {
+	case 1e6:
+		t = time.UnixMilli(l)
+	case 1000:
+		t = time.UnixMicro(l)
+	default:
+		t = time.Unix(0, l*c.mult)
+	}
+	*(*time.Time)(p) = t.UTC()
 	return nil
 }
 
